@@ -33,6 +33,7 @@ type memDS struct {
 	batched bool
 	log     *[]dsMutation // shared mutation log when recording
 	hook    func(op string, key string)
+	onPut   func(key string, val []byte)
 }
 
 type dsMutation struct {
@@ -155,6 +156,9 @@ func (d *memDS) Put(ctx context.Context, key datastore.Key, value []byte) error 
 	m := dsMutation{Ops: []dsOp{{Key: key.String(), Val: append([]byte(nil), value...)}}}
 	d.applyMutation(m)
 	d.record(m)
+	if d.onPut != nil {
+		d.onPut(key.String(), value)
+	}
 	return nil
 }
 
@@ -204,6 +208,13 @@ func (b *memBatch) Commit(ctx context.Context) error {
 	m := dsMutation{Ops: b.ops}
 	b.d.applyMutation(m)
 	b.d.record(m)
+	if b.d.onPut != nil {
+		for _, op := range b.ops {
+			if !op.Del {
+				b.d.onPut(op.Key, op.Val)
+			}
+		}
+	}
 	b.ops = nil
 	return nil
 }
